@@ -5,7 +5,7 @@
      case_holds:  the property's clauses hold for every call of the observed history (monitors p_chk / m_chk / s_chk / q_chk,
                   which follow the OBSERVED results and never look at the model's state). *)
 From Coq Require Import ZArith List Bool.
-Require Export C12_Base C12_Pipe C12_MQ C12_Sync C12_Pri C12_Race C12_More.
+Require Export C12_Base C12_Pipe C12_MQ C12_Sync C12_Pri C12_Race C12_More C12_Runs.
 Import ListNotations.
 
 Inductive case :=
@@ -23,7 +23,12 @@ Inductive case :=
   | CGroupPipe (l : list (pkind * option Z * list (pop * res)))
   | CGroupMQ (l : list (option Z * option Z * list (mop * res)))
   (* PriQueue under parallel pushers and poppers: calls with results and invocation / response ticks *)
-  | CParPri (n : Z) (cs : list (qop * res * Z * Z)).
+  | CParPri (n : Z) (cs : list (qop * res * Z * Z))
+  (* run-length encoded sequential histories (C12_Runs.v): ((op, result), n) = n consecutive steps with consecutive items *)
+  | CRunPipe (k : pkind) (n : Z) (l : list ((pop * res) * nat))
+  | CRunMQ (cm rm : Z) (l : list ((mop * res) * nat))
+  | CRunSync (l : list ((sop * res) * nat))
+  | CRunPri (n : Z) (l : list ((qop * res) * nat)).
 
 Definition case_accept (c : case) : bool :=
   match c with
@@ -37,6 +42,10 @@ Definition case_accept (c : case) : bool :=
   | CGroupPipe l => pg_accept l
   | CGroupMQ l => mg_accept l
   | CParPri n cs => pp_holds cs        (* no witness search for this class: the clauses themselves *)
+  | CRunPipe k n l => pl_accept k n l
+  | CRunMQ cm rm l => ml_accept cm rm l
+  | CRunSync l => sl_accept l
+  | CRunPri n l => ql_accept n l
   end.
 Definition case_holds (c : case) : bool :=
   match c with
@@ -50,11 +59,15 @@ Definition case_holds (c : case) : bool :=
   | CGroupPipe l => pg_holds l
   | CGroupMQ l => mg_holds l
   | CParPri n cs => pp_holds cs
+  | CRunPipe k n l => pl_holds n l
+  | CRunMQ cm rm l => ml_holds cm rm l
+  | CRunSync l => sl_holds l
+  | CRunPri n l => ql_holds n l
   end.
 
 Theorem case_sound : forall c, case_accept c = true -> case_holds c = true.
 Proof.
-  intros [k n h|cm rm h|h|n h|k n cs lin|cm rm cs lin|cs lin|l|l|n cs]; cbn [case_accept case_holds].
+  intros [k n h|cm rm h|h|n h|k n cs lin|cm rm cs lin|cs lin|l|l|n cs|k n l|cm rm l|l|n l]; cbn [case_accept case_holds].
   - apply p_accept_sound.
   - apply m_accept_sound.
   - apply s_accept_sound.
@@ -65,6 +78,10 @@ Proof.
   - apply pg_accept_sound.
   - apply mg_accept_sound.
   - auto.
+  - apply pl_sound.
+  - apply ml_sound.
+  - apply sl_sound.
+  - apply ql_sound.
 Qed.
 
 (* ---- non-vacuity: concrete histories (every clause of the property shows up at least once) ---- *)
